@@ -1812,7 +1812,7 @@ Definition nsp (c : cmd) : Prop := match c with CSpawn | CPNew _ => False | _ =>
 
 (** the command of [t] returns [v]: the monitor sees [ERet v]; [tcur] is cleared *)
 Lemma e_ret : forall p st st2 m t c v,
-  ERel p st m -> XInv st -> (t < nthr st)%nat ->
+  ERel p st m -> (t < nthr st)%nat ->
   tcur (thr st t) = Some c -> tcont (thr st t) = [] -> get_tid t (b_cur (m14_b m)) = Some c ->
   ((p = ENone /\ nsp c /\ v = tret (thr st t)) \/ p = pendE t c (Some v)) ->
   nthr st2 = nthr st -> sl st2 = sl st -> dl st2 = dl st -> pps st2 = pps st ->
@@ -1820,7 +1820,7 @@ Lemma e_ret : forall p st st2 m t c v,
   tcont (thr st2 t) = [] -> tfinal (thr st2 t) = tfinal (thr st t) -> tpipe (thr st2 t) = tpipe (thr st t) -> tcur (thr st2 t) = None ->
   ERel ENone st2 (m14r_step m (t, ERet v)).
 Proof.
-  intros p st st2 m t c v R X Ht Hcu Hc Hg Hp Hn Esl Edl Epp Ho Hc2 Hf2 Htp2 Hcu2.
+  intros p st st2 m t c v R Ht Hcu Hc Hg Hp Hn Esl Edl Epp Ho Hc2 Hf2 Htp2 Hcu2.
   set (m' := m14r_step m (t, ERet v)).
   assert (Co : forall u, tcont (thr st2 u) = tcont (thr st u)) by (intro u; destruct (Nat.eq_dec u t) as [->|E]; [rewrite Hc, Hc2; reflexivity|rewrite Ho; auto]).
   assert (Fi : forall u, tfinal (thr st2 u) = tfinal (thr st u)) by (intro u; destruct (Nat.eq_dec u t) as [->|E]; [exact Hf2|rewrite Ho; auto]).
@@ -2095,3 +2095,95 @@ Qed.
 
 Lemma Sp_init : forall scr, SpInv (winit scr).
 Proof. intros scr u c H. cbn in H. discriminate H. Qed.
+
+Lemma settle_E : forall st m t ev done st' ev' p,
+  CInv (core st) -> SlInv st -> XInv st -> ERel p st m -> BRel st (m14_b m) -> (t < nthr st)%nat ->
+  (forall j, In j (tfinal (thr st t)) -> finok j) -> (t = main -> tfinal (thr st t) = []) ->
+  (done = None -> p = ENone /\ forall c, tcur (thr st t) = Some c -> nsp c) ->
+  (forall v, done = Some v -> tcont (thr st t) = [] /\ exists c, tcur (thr st t) = Some c /\ p = pendE t c (Some v)) ->
+  settle st t ev done = (st', ev') ->
+  exists tail, ev' = ev ++ tail /\ ERel ENone st' (fold_left m14r_step (evs t tail) m).
+Proof.
+  intros st m t ev done st' ev' p I S X R B Ht Hfin Hfm HdN HdS H. unfold settle in H.
+  destruct (norm (2 * (cont_size (tcont (th st t)) + length (tacc (th st t))) + 2) (sl st) (tacc (th st t)) (tcont (th st t)) ev)
+    as [[[s1 acc1] k1] ev1] eqn:En.
+  cbn zeta in H.
+  destruct (norm_dels _ _ _ _ _ _ _ _ _ En) as [dels [Edels Hdels]].
+  assert (Pd : forall e, In e dels -> c14_plain e) by (intros e He; destruct (Hdels e He) as [x [h ->]]; exact Logic.I).
+  assert (Pd' : forall e, In e dels -> plain e) by (intros e He; destruct (Hdels e He) as [x [h ->]]; exact Logic.I).
+  set (m1 := fold_left m14r_step (evs t dels) m).
+  assert (Sm : r14_same m m1) by (apply m14r_plain_fold; exact Pd).
+  assert (Gt1 : get_tid t (b_cur (m14_b m1)) = tcur (thr st t)).
+  { unfold m1. rewrite m14r_b_fold. destruct (mb_fold_plain t dels (m14_b m) Pd') as [A1 _]. cbn zeta in A1. rewrite A1.
+    apply (br_cur st _ B t Ht). }
+  set (st1 := set_sl (upd_th st t (set_tacc (set_tcont (th st t) k1) acc1)) s1) in *.
+  assert (T1 : tcont (thr st1 t) = k1) by (unfold st1; cbn -[Nat.eqb]; unfold updN, th; rewrite Nat.eqb_refl; reflexivity).
+  assert (Th1 : forall u, tcur (thr st1 u) = tcur (thr st u) /\ tret (thr st1 u) = tret (thr st u) /\ tfinal (thr st1 u) = tfinal (thr st u) /\ tpipe (thr st1 u) = tpipe (thr st u)).
+  { intro u. unfold st1. cbn -[Nat.eqb]. unfold updN, th. destruct (Nat.eqb_spec u t) as [E|E]; [rewrite E|]; auto. }
+  assert (To1 : forall u, u <> t -> tcont (thr st1 u) = tcont (thr st u)).
+  { intros u Hu. unfold st1. cbn -[Nat.eqb]. unfold updN, th. destruct (Nat.eqb_spec u t); [contradiction|reflexivity]. }
+  assert (N1 : nthr st1 = nthr st) by reflexivity.
+  assert (Steq : s1 = sl st -> k1 = tcont (thr st t) -> ERel p st1 m1).
+  { intros E1 E2. apply (e_msame _ _ m); [|exact Sm]. apply (e_steq _ st); auto; try (unfold st1; cbn; congruence).
+    intro u. destruct (Th1 u) as [A [_ [C D]]]. split; [|auto].
+    destruct (Nat.eq_dec u t) as [->|Hu]; [rewrite T1; exact E2|apply To1; exact Hu]. }
+  assert (R1 : ERel p st1 m1).
+  { destruct (tcont (thr st t)) as [|i0 r0] eqn:Ek.
+    - unfold th in En. rewrite Ek, norm_nil in En. injection En as E1 _ E3 _. apply Steq; auto.
+    - destruct (Nat.eq_dec t main) as [->|Hn].
+      + apply (e_msame _ _ m); [|exact Sm]. change st1 with (NS st s1 acc1 k1). clear H Steq T1 Th1 To1. clearbody st1.
+        eapply norm_E; [exact X| | | |exact En].
+        * eapply CInv_ceq; [|exact I]. unfold NS. same_core.
+        * unfold NS. sl_irr st.
+        * apply (e_steq _ st); auto. intro u. unfold NS. repeat split; thr_simpl.
+      + rewrite norm_id in En; [|intros j Hj; apply (i_mainonly _ I t Hn); exact Hj].
+        injection En as E1 _ E3 _. apply Steq; auto. unfold th in E3. rewrite <- E3. exact Ek. }
+  assert (Hk1 : done <> None -> k1 = []).
+  { intro D. destruct done as [v|]; [|exfalso; apply D; reflexivity]. destruct (HdS v eq_refl) as [Y _]. unfold th in En. rewrite Y, norm_nil in En. injection En as _ _ E3 _. auto. }
+  assert (F1 : tfinal (thr st1 t) = tfinal (thr st t)) by apply Th1.
+  assert (C1 : tcur (thr st1 t) = tcur (thr st t)) by apply Th1.
+  assert (Ht1 : (t < nthr st1)%nat) by exact Ht.
+  clearbody st1.
+  match type of H with (let '(st2, ev2) := ?E in _) = _ => destruct E as [st2 ev2] eqn:E2 end.
+  assert (R2 : exists tl2, ev2 = ev1 ++ tl2 /\ ERel ENone st2 (fold_left m14r_step (evs t tl2) m1) /\
+                           tfinal (thr st2 t) = tfinal (thr st t) /\ nthr st2 = nthr st).
+  { destruct done as [v|].
+    - inversion E2; subst st2 ev2. exists [ERet v]. split; [reflexivity|]. split; [|split; [rewrite <- F1; thr_simpl|exact N1]].
+      destruct (HdS v eq_refl) as [_ [c [Hu Hp]]]. cbn [evs map fold_left].
+      assert (K1 : tcont (thr st1 t) = []) by (rewrite T1; apply Hk1; discriminate).
+      eapply (e_ret p st1 _ m1 t c v R1 Ht1);
+        [rewrite C1; exact Hu|exact K1|rewrite Gt1; exact Hu|right; exact Hp|reflexivity|reflexivity|reflexivity|reflexivity|intros ? ?; thr_simpl
+        |cbn -[Nat.eqb]; unfold updN, th; rewrite ?Nat.eqb_refl; cbn -[Nat.eqb]; unfold updN, th; rewrite ?Nat.eqb_refl; cbn -[Nat.eqb]; exact K1
+        |thr_simpl|thr_simpl|thr_simpl].
+    - destruct (HdN eq_refl) as [Pn Nsp]. subst p. destruct k1.
+      + destruct (tcur (th st1 t)) as [c|] eqn:Ec.
+        * inversion E2; subst st2 ev2. exists [ERet (tret (th st1 t))]. split; [reflexivity|].
+          split; [|split; [rewrite <- F1; destruct c; thr_simpl|rewrite <- N1; destruct c; reflexivity]].
+          cbn [evs map fold_left]. unfold th in Ec.
+          assert (G1 : get_tid t (b_cur (m14_b m1)) = Some c) by (rewrite Gt1, <- C1; exact Ec).
+          assert (Nc : nsp c) by (apply Nsp; rewrite <- C1; exact Ec).
+          eapply (e_ret ENone st1 _ m1 t c _ R1 Ht1);
+            [exact Ec|exact T1|exact G1|left; split; [reflexivity|split; [exact Nc|reflexivity]]
+            |destruct c; reflexivity|destruct c; reflexivity|destruct c; reflexivity|destruct c; reflexivity
+            |intros ? ?; destruct c; thr_simpl
+            |destruct c; cbn -[Nat.eqb]; unfold updN, th; rewrite ?Nat.eqb_refl; cbn -[Nat.eqb]; unfold updN, th; rewrite ?Nat.eqb_refl; cbn -[Nat.eqb]; exact T1
+            |destruct c; thr_simpl|destruct c; thr_simpl|destruct c; thr_simpl].
+        * inversion E2; subst st2 ev2. exists []. rewrite app_nil_r. split; [reflexivity|]. cbn. split; [exact R1|split; [exact F1|exact N1]].
+      + inversion E2; subst st2 ev2. exists []. rewrite app_nil_r. split; [reflexivity|]. cbn. split; [exact R1|split; [exact F1|exact N1]]. }
+  destruct R2 as [tl2 [E2' [R2 [F2 N2]]]].
+  set (m2 := fold_left m14r_step (evs t tl2) m1) in *.
+  assert (Fin : exists tl3, ev' = ev2 ++ tl3 /\ ERel ENone st' (fold_left m14r_step (evs t tl3) m2)).
+  { destruct (tcont (th st2 t)) eqn:Ec; [|inversion H; subst; exists []; rewrite app_nil_r; auto].
+    destruct (tscript (th st2 t)) eqn:Es; [|inversion H; subst; exists []; rewrite app_nil_r; auto].
+    destruct (tcur (th st2 t)) eqn:Eu; [inversion H; subst; exists []; rewrite app_nil_r; auto|].
+    destruct (tfinal (th st2 t)) eqn:Ef; inversion H; subst st' ev'; clear H.
+    - destruct (is_main t); [exists []; rewrite app_nil_r; auto|].
+      exists [EExit]. split; [reflexivity|]. cbn [evs map fold_left]. apply e_exit; auto. rewrite N2. exact Ht.
+    - exists []. rewrite app_nil_r. split; [reflexivity|]. cbn [evs map fold_left]. unfold th in *.
+      assert (Nm : t <> main) by (intro E; apply Hfm in E; rewrite <- F2, Ef in E; discriminate E).
+      rewrite <- Ef. apply e_final; auto. intros j Hj. apply Hfin. rewrite <- F2. exact Hj. }
+  destruct Fin as [tl3 [E3 R3]].
+  exists (dels ++ tl2 ++ tl3). split.
+  - rewrite E3, E2', Edels. rewrite <- !app_assoc. reflexivity.
+  - rewrite !evs_app, !fold_left_app. exact R3.
+Qed.
